@@ -62,3 +62,19 @@ int unlink(const char *path)
         die();
     return r;
 }
+
+/* VERIF_FAIL_REALPATH=<substring>: realpath() of a path containing the substring fails with EIO (a failing disk / stale NFS
+ * handle), to replay "canonicalize fails with something other than NotFound". */
+#include <errno.h>
+char *realpath(const char *path, char *resolved)
+{
+    static char *(*real)(const char *, char *);
+    if (!real)
+        real = dlsym(RTLD_NEXT, "realpath");
+    const char *sub = getenv("VERIF_FAIL_REALPATH");
+    if (sub && *sub && path && strstr(path, sub)) {
+        errno = EIO;
+        return NULL;
+    }
+    return real(path, resolved);
+}
